@@ -311,7 +311,12 @@ def run_scenario (scn, schedule, policy, seed):
           else:
             # (the task is still busy: this wake-up changes nothing)
             obs["wakes_while_busy"] = obs.get("wakes_while_busy", 0) + 1
-          sched.schedule(sleeper)
+          if scn.get("wake_first"):
+            # (the documented variant "and run it next": a wake-up like any other)
+            obs["wakes_asking_to_run_first"] = obs.get("wakes_asking_to_run_first", 0) + 1
+            sched.schedule(sleeper, True)
+          else:
+            sched.schedule(sleeper)
         elif op in ("sync", "sync2", "sync_long"):
           with sched.synchronized():
             order[0] += 1
@@ -466,6 +471,8 @@ def judge (scn, obs, fire, rep):
       sum(1 for o in scn.get("coop", ()) if o == "wake")
   if nwake:
     rep.count("wakes_checked", nwake)
+    if obs.get("wakes_asking_to_run_first"):
+      rep.count("wakes_asking_to_run_first", obs["wakes_asking_to_run_first"])
     if obs.get("wakes_while_busy"):
       rep.count("wakes_of_a_task_that_was_queued_by_its_own_doing", obs["wakes_while_busy"])
     runs = obs["wakes"]
@@ -540,6 +547,8 @@ def explore_dfs (scn, bound, limit, rep):
 
 
 SCENARIOS = [
+  dict(threads=[["wake"], ["cl"]], threaded_hub=True, start_first=True, wake_first=True),
+  dict(threads=[["wake"]], threaded_hub=False, start_first=True, wake_first=True),
   dict(threads=[["cl", "cl"]], threaded_hub=True, start_first=True),
   dict(threads=[["cl"], ["cl"]], threaded_hub=True, start_first=True),
   dict(threads=[["cl"], ["cl"]], threaded_hub=False, start_first=True),
